@@ -24,6 +24,7 @@ type c15H struct {
 	BG       bool `json:"bg"`
 	Scribble bool `json:"scribble"`
 	Yields   int  `json:"yields"` // before scribbling / before the second look
+	Panic    bool `json:"panic"`  // the handler panics when it is done (only with Recover)
 }
 
 type c15Scenario struct {
@@ -33,7 +34,14 @@ type c15Scenario struct {
 	// handlers act on) follow the generated events; their expected form is ParseLine(raw)
 	Tracking  bool `json:"tracking"`
 	RawEvents []Q  `json:"raw_events"`
+	// Recover: the application installs, on the existing client, a Config().Recover callback that edits
+	// the line it is handed (say, redacting it before reporting); some handlers panic, and PanicLines are
+	// short lines on which built-in handlers panic
+	Recover    bool `json:"recover"`
+	PanicLines []Q  `json:"panic_lines"`
 }
+
+var c15PanicLines = []string{"PING", ":irc.server 433", ":irc.server CAP", ":irc.server 410 a", ":irc.server 908 a", ":me!ident@host NICK"}
 
 var c15StateLines = []string{
 	":irc.server 353 me = #c :me @x +y ",
@@ -69,10 +77,20 @@ func genC15(t *rapid.T) *c15Scenario {
 			sc.RawEvents = append(sc.RawEvents, Q(rapid.SampledFrom(c15StateLines).Draw(t, "state_line")))
 		}
 	}
+	sc.Recover = rapid.IntRange(0, 2).Draw(t, "recover") == 0
+	if sc.Recover {
+		for k := rapid.IntRange(0, 3).Draw(t, "npaniclines"); k > 0; k-- {
+			sc.PanicLines = append(sc.PanicLines, Q(rapid.SampledFrom(c15PanicLines).Draw(t, "panic_line")))
+		}
+	}
 	nfg := rapid.IntRange(1, 4).Draw(t, "nfg")
 	nbg := rapid.IntRange(0, 3).Draw(t, "nbg")
 	for i := 0; i < nfg+nbg; i++ {
-		sc.Handlers = append(sc.Handlers, c15H{BG: i >= nfg, Scribble: rapid.Bool().Draw(t, "scribble"), Yields: rapid.SampledFrom([]int{0, 0, 1, 5, 50}).Draw(t, "yields")})
+		h := c15H{BG: i >= nfg, Scribble: rapid.Bool().Draw(t, "scribble"), Yields: rapid.SampledFrom([]int{0, 0, 1, 5, 50}).Draw(t, "yields")}
+		if sc.Recover {
+			h.Panic = rapid.IntRange(0, 2).Draw(t, "panics") == 0
+		}
+		sc.Handlers = append(sc.Handlers, h)
 	}
 	return sc
 }
@@ -150,6 +168,16 @@ func runC15(sc *c15Scenario) *Violation {
 	for _, r := range sc.RawEvents {
 		expects = append(expects, expectOfRaw(string(r)))
 	}
+	for _, r := range sc.PanicLines {
+		expects = append(expects, expectOfRaw(string(r)))
+	}
+	if sc.Recover {
+		tc.C.Config().Recover = func(c *client.Conn, l *client.Line) {
+			if e := recover(); e != nil && l != nil {
+				scribble(l) // whatever line this is, it belongs to the invocation that panicked
+			}
+		}
+	}
 	var mu sync.Mutex
 	var recs []*c15Rec
 	cur := 0 // index of the event in flight (events are sent one at a time)
@@ -179,6 +207,9 @@ func runC15(sc *c15Scenario) *Violation {
 						runtime.Gosched()
 					}
 					scribble(l)
+					if h.Panic {
+						panic("c15: handler gives up")
+					}
 					return
 				}
 				for i := 0; i < h.Yields+3; i++ {
@@ -189,6 +220,9 @@ func runC15(sc *c15Scenario) *Violation {
 				mu.Lock()
 				r.second = sec
 				mu.Unlock()
+				if h.Panic {
+					panic("c15: handler gives up")
+				}
 			}
 			if h.BG {
 				tc.C.HandleBG(cmd, client.HandlerFunc(f))
@@ -295,6 +329,12 @@ func TestC15(t *testing.T) {
 			if h.Scribble {
 				cls = append(cls, "has_scribbler")
 			}
+			if h.Panic {
+				cls = append(cls, "has_panicking_handler")
+			}
+		}
+		if len(sc.PanicLines) > 0 {
+			cls = append(cls, "builtin_handler_panics")
 		}
 		b, _ := json.Marshal(sc)
 		col.Case(string(b), nt, uniqStrings(cls)...)
